@@ -324,7 +324,7 @@ def run(model, rep, tier):
                   "and its commit silently drops everything committed since", stmt="newest-base")
         rep.check(bool(fresh_idx) and all(conds(x) != conds(dn) for x in fresh_idx), "R-20.2", wi.qualname, where(wi, wi.node), "a replacement writer starts with an empty delegation index",
                   "no arm gives a replacement writer an empty delegation index", stmt="fresh-index")
-    rep.share(model, "C19", {"R-19.1"}, "R-20.5", "WritableVersion clones version.delegations (a BTreeSet) and version.nodes; a rolled-back or superseded writer must leave the older version's index intact")
+    rep.share(model, "C19", {"R-19.1", "R-19.6"}, "R-20.5", "WritableVersion clones version.delegations (a BTreeSet) and version.nodes; a rolled-back or superseded writer must leave the older version's index intact")
     # ---------------------------------------------------------------- R-20.6
     pr = model.func("dns.btreezone.WritableVersion.put_rdataset")
     c6 = CFG(pr.node, implicit_exc=False)
